@@ -14,7 +14,7 @@ EXTENDS BigNat
 \* n a TLC integer, 2 <= n < 2^31
 IsSmallPrime(n) ==
   /\ n >= 2
-  /\ (n < 4 \/ (n % 2 # 0 /\ \A k \in 1..23170 : LET d == 2 * k + 1 IN d * d > n \/ n % d # 0))
+  /\ (n < 4 \/ (n % 2 # 0 /\ \A k \in 1..23170 : LET d == 2 * k + 1 IN d > n \div d \/ n % d # 0))
 
 PockStepOK(s, q) ==
   LET pm1 == Sub(s.p, One)
